@@ -148,3 +148,12 @@ MUTANTS += [
     ("clim_unmatched_good", Q, "        flag_arr.fill(QartodFlags.UNKNOWN)\n\n        # If the value is masked set the flag to MISSING", "        flag_arr.fill(QartodFlags.GOOD)\n\n        # If the value is masked set the flag to MISSING", ["C08"]),
     ("clim_zspan_member_when_all_depth_missing", Q, "            if not isnan(m.zspan) and (not zinp.count() or isnan(zinp.any())):\n                continue\n", "", ["C08"]),
 ]
+MUTANTS += [
+    ("c01_clim_mutable_default", Q, "    def __init__(self, members=None) -> None:\n        members = members or []\n        self._members = members", "    def __init__(self, members=[]) -> None:\n        self._members = members", ["C01"]),
+    ("c01_gross_masked_result", Q, "    # If the value is masked set the flag to MISSING\n    flag_arr[inp.mask] = QartodFlags.MISSING\n\n    if suspect_span is not None:", "    flag_arr[inp.mask] = np.ma.masked\n\n    if suspect_span is not None:", ["C01", "C02"]),
+    ("c01_clim_pops_period", Q, "        for climate_config_dict in config:\n            c.add(**climate_config_dict)", "        for climate_config_dict in config:\n            period = climate_config_dict.pop(\"period\", None)\n            c.add(period=period, **climate_config_dict)", ["C01"]),
+    ("c01_spike_empty_regress", Q, "    if flag_arr.size > 0:\n        flag_arr[0] = QartodFlags.UNKNOWN", "    if True:\n        flag_arr[0] = QartodFlags.UNKNOWN", ["C01"]),
+    ("c01_density_single_shape", Q, "        flag_arr[0] = QartodFlags.UNKNOWN\n        return flag_arr\n", "        flag_arr[0] = QartodFlags.UNKNOWN\n        return flag_arr[0]\n", ["C01"]),
+    ("c01_roc_inplace_abs", Q, "        inp = np.ma.masked_invalid(np.array(inp).astype(np.float64))\n\n    # Save original shape\n    original_shape = inp.shape\n    inp = inp.flatten()\n\n    # Start with everything as passing (1)\n    flag_arr = np.ma.ones(inp.size, dtype=\"uint8\")\n\n    # calculate rate of change",
+     "        inp = np.ma.masked_invalid(np.asarray(inp, dtype=np.float64), copy=False)\n\n    # Save original shape\n    original_shape = inp.shape\n    inp = inp.ravel()\n    np.abs(inp.data, out=inp.data)\n\n    # Start with everything as passing (1)\n    flag_arr = np.ma.ones(inp.size, dtype=\"uint8\")\n\n    # calculate rate of change", ["C01"]),
+]
